@@ -69,7 +69,7 @@ def shards(tier, seed):
 
 
 def min_required(tier):
-    return {"fault_runs_compared": 200, "equiv_calls_compared": 2000, "schedules": 3000, "process_histories": 100, "process_calls_recorded": 700}
+    return {"fault_runs_compared": 80, "equiv_calls_compared": 1200, "schedules": 3000, "process_histories": 60, "process_calls_recorded": 400}
 
 
 def mp_store_world(scratch, name, contents, docs, pids, fmts):
